@@ -115,7 +115,9 @@ def encode_case(case, steps):
         if not all(finite(o["xyz"]) for o in cur):
             break
         name = op[0]
-        if name == "conn":        # a pure query: no step of the model (the oracle compares the answers)
+        if name in ("conn", "bad") or (name == "merge" and not op[1]):
+            # a pure query / a call that fails / a merge of nothing: no step of the model (the oracle checks that
+            # nothing changed and nothing was created)
             prev = cur
             continue
         info = st["new"]
@@ -186,6 +188,9 @@ def encode_case(case, steps):
                     t = "(OTranslate %s (PSlot %s %s))" % (nat(op[1]), nat(p[1]), nat(p[2]))
                 else:
                     t = "(OTranslate %s (PVal %s))" % (nat(op[1]), vl(p))
+            elif name == "rotate_euler":
+                R = OR.euler_matrix(op[2])
+                t = "(ORotate %s (%s, %s, %s) %s)" % (nat(op[1]), vl(R[0]), vl(R[1]), vl(R[2]), orig(op[3]))
             elif name == "rotate":
                 # the exact rational rotation matrix the generator meant (the JSON carries its nearest binary64 entries):
                 # the model accepts rotation matrices only, like scipy's Rotation.from_matrix
@@ -312,7 +317,7 @@ def nontrivial(case):
 # ---------------------------------------------------------------------- the check
 def run(ctx):
     quick = ctx.tier == "quick"
-    n_cases = 500 if quick else 8000
+    n_cases = 400 if quick else 5000
     if os.environ.get("VERIF_C06_CASES"):      # development aid (mutation self-tests)
         n_cases = int(os.environ["VERIF_C06_CASES"])
     ctx.rule = ("histories of <= ~20 calls over 1-3 initial meshes (from_arrays over float/int caller arrays incl. two meshes "
@@ -321,7 +326,14 @@ def run(ctx):
                 "rotate (15 rational rotation matrices) / scale / scale_xyz / normalize / fit_into_unit_cube / "
                 "translate_to_origin / flatten / in-place coordinate edits of meshes and caller arrays / vertex rebinding, "
                 "35% of translate-rotate-scale followed by their inverse, 12% of parameters passed as the very vector stored "
-                "in a mesh. Non-trivial = a write happens after a copy/merge/from_arrays/derived producer; distinct = by "
+                "in a mesh. Per history: call form (positional / keyword / defaults omitted), number representation (python, "
+                "np.int64/float64, np.int32/float32, bools as np.bool_ or 0/1), translation vectors as Vec / list / tuple / ndarray, "
+                "rotations as 3x3 array / scipy Rotation / Euler quarter turns (list or tuple), integer-valued numbers as ints (30%); "
+                "25% of producer calls repeated with equal arguments, 8% of calls repeated, caller arrays with coincident rows or two "
+                "columns, calls that must fail (wrong shapes, out-of-range indices, ring(2), merge of a generator, copy(None)) and "
+                "merge([]) after which everything must be as before; attribute names of all objects before/after every anchored "
+                "call; after copies source and copy grow apart and every connectivity answer is compared with the object's own "
+                "containers. Non-trivial = a write happens after a copy/merge/from_arrays/derived producer; distinct = by "
                 "canonical JSON of the history")
     ctx.assumptions += [
         "coordinates are exact rationals in the model (Qc); the implementation's binary64 values are converted exactly and "
